@@ -29,7 +29,9 @@ def gen_dir(rng):
     # in every directory: a note whose own tags merely START like the tags it inherits (+p10 / +p1 ...), below an earlier
     # note whose three-character ZID extends its two-character one
     files["fixed.zo"] = ("# Fixed page +p1\n\n" + "#" * 32 + " Sec @work %bob #a\n\n- 240301#F1x extended zid earlier note\n"
-                         "- 240301#F1 prefix tags +p10 @work_laptop %bobby #ab\n  * a bullet of it\n\n")
+                         "- 240301#F1 prefix tags +p10 @work_laptop %bobby #ab\n  * a bullet of it\n"
+                         # the NAMES of the tags it inherits occur inside links and quotes only: they are no tags of the note
+                         "- 240301#F2 names only in refs [#a] [@work] ([#a]), '%bob' \"+p1\"\n\n")
     return files
 
 
@@ -230,7 +232,8 @@ def run(oc, tier, seed):
             write_tree(d, {"no_newline.zo": "# No trailing newline\n\n- 240301#00 last line without newline"})
             dests = ["alpha", "beta.zo", "sub/gamma", "empty_dest", "no_newline", "sections_dest", "new/created", "missing/nowhere"]
             search_budget = 40
-            forced = [("240301#F1", "sections_dest", None), ("240301#F1", "new/created", "x"), ("240301#F1", "empty_dest", "~")]
+            forced = [("240301#F1", "sections_dest", None), ("240301#F1", "new/created", "x"), ("240301#F1", "empty_dest", "~"),
+                      ("240301#F2", "sections_dest", None), ("240301#F2", "empty_dest", "x")]
             for mv in range(n_moves):
                 z = forced[mv][0] if mv < len(forced) else rng.choice(zids)
                 info = note_info(d, z)
